@@ -91,8 +91,18 @@ def w_sweep(elements):
                     nm = names[i % len(names)]
                     n.add_child(Node("zzForeignChild" if nm.startswith("~") else nm))
             root.add_child(n)
+        # hostile attribute NAMES (the statement says "any attributes"): look-alikes of declared names, separators, empties
+        hostile = ["a:b:c", "::", ":", "", " ", "xml:lang", "{u}x", "}", "x\x00", "\u00e9", "a" * 1000, "%s", "{0}", "__class__", "a b", "\u202e"]
+        for d in attrs[:3]:
+            hostile += [d + ":", ":" + d, "x:" + d, "x:y:" + d, d + " ", d.upper()]
+        for hn in hostile:
+            n = Node(el)
+            n.add_attribute(hn, "v")
+            for a in attrs:
+                n.add_attribute(a, "v")
+            root.add_child(n)
         ev = valtrace.observe_tree(root)
-        ev["desc"] = {"base": "sweep", "element": el, "contents": len(pool) + len(extra)}
+        ev["desc"] = {"base": "sweep", "element": el, "contents": len(pool) + len(extra), "hostile_attribute_names": len(hostile)}
         evs.append(ev)
         Node.store.clear()
     return evs
